@@ -60,8 +60,9 @@ def gen_plan(ch: Chooser, tier: str) -> dict[str, Any]:
     if ch.bool(0.6):
         handlers.append({'id': 'c1', 'kind': 'create', 'opts': {},
                          'script': [{'do': 'ok', 'dur': ch.choice([0.1, 2.0, 6.0])}]})
+    sync_share = ch.choice([0.0, 0.0, 0.5])
     for i in range(ch.int(0, 2)):
-        handlers.append(spawning.gen_daemon(ch, f'dm{i + 1}'))
+        handlers.append(spawning.gen_daemon(ch, f'dm{i + 1}', sync_share=sync_share))
     for h in handlers:
         if h['kind'] == 'daemon':
             h['opts'].pop('labels', None)
@@ -249,7 +250,12 @@ def oracle(run: runner.Run, oc: Outcome) -> None:
                 only_watchers = fail_kind == 'login' and any(
                     e[2] == 'watch-exit' and e[3] == actor and str(e[6]) == 'error:LoginError' for e in trace) and not any(
                     e[2] == 'req' and e[4] == actor and e[1] > t_fail for e in trace)
-                oc.add('C20/lingering', 'daemon-outlived-session' if outlived else
+                # told apart: a synchronous daemon spawned by an event processed while the workers drained (nobody stops it,
+                # see the cleanup clause) sits in its thread for good -- threads cannot be cancelled, the exit waits for it
+                late_sync = [c for c in calls if c.hkind == 'daemon' and (c.extra or {}).get('sync') and c.t1 is None
+                             and c.t0 > t_fail + EPS]
+                oc.add('C20/lingering', 'sync-daemon-spawned-after-stop-requested' if late_sync else
+                       'daemon-outlived-session' if outlived else
                        'after-watcher-failed' if only_watchers else f'after-{fail_kind}-failed',
                        f"an essential task failed at t={t_fail:.3f} ({fail_kind}) but kopf.operator() is still running "
                        f"at t={t_end:.1f} (bound {bound:.1f}s): half-alive")
@@ -272,7 +278,10 @@ def oracle(run: runner.Run, oc: Outcome) -> None:
     if t_stop is not None and not cancelled:
         if t_exit is None:
             if t_end - t_stop > bound:
-                oc.add('C20/exit-unbounded', 'daemon-outlived-session' if outlived else 'after-stop-flag',
+                late_sync = [c for c in calls if c.hkind == 'daemon' and (c.extra or {}).get('sync') and c.t1 is None
+                             and c.t0 > t_stop + EPS]
+                oc.add('C20/exit-unbounded', 'sync-daemon-spawned-after-stop-requested' if late_sync else
+                       'daemon-outlived-session' if outlived else 'after-stop-flag',
                        f"the stop flag was set at t={t_stop:.3f} but kopf.operator() has not returned by t={t_end:.1f} "
                        f"(bound {bound:.1f}s)")
         else:
